@@ -61,17 +61,20 @@ def run_config(cfg, strategy=None, want_choices=False):
         acc = cfg.get('acc', {}).get(name, 'init')
         fail = cfg.get('fail', {}).get(name, 'none')
         body = {}
+        # cfg['host']: a module served by the poll thread of another one is attached to it under the name `io`
+        ioname = cfg.get('host', {}).get(name, name)
+        attname = {t: ('io' if t == ioname and ioname != name else f'att{k}') for k, t in enumerate(targets)}
         for k, t in enumerate(targets):
             # cfg['opt']: the attachments are declared optional (mandatory=False) - a configured optional
             # attachment has to be resolved, checked and ordered exactly like a mandatory one
-            body[f'att{k}'] = Attached(Other if (name, t) in wrong else Module, mandatory=not cfg.get('opt'))
+            body[attname[t]] = Attached(Other if (name, t) in wrong else Module, mandatory=not cfg.get('opt'))
         body['spare'] = Attached(mandatory=False)      # an optional attachment nobody configures: stays None
 
         def look(self):
             if self.spare is not None:
                 ev(ev='crash', exc='an optional attachment that was not configured is not None')
             for k, t in enumerate(targets):
-                o = getattr(self, f'att{k}')
+                o = getattr(self, attname[t])
                 ev(ev='attach', u=name, t=t, inited=bool(getattr(o, 'initModuleDone', False)))
 
         def __init__(self, *a, **k):
@@ -152,10 +155,14 @@ def run_config(cfg, strategy=None, want_choices=False):
             return type('L_' + name, (Pinata,), body)
         return type('L_' + name, (Module,), body)
 
+    def attkey(name, k, t):
+        h = cfg.get('host', {}).get(name, name)
+        return 'io' if (t == h and h != name) else f'att{k}'
+
     def child_cfg(name):
         c = {'cls': make_class(name), 'description': name}
         for k, t in enumerate(cfg['att'].get(name, [])):
-            c[f'att{k}'] = t
+            c[attkey(name, k, t)] = t
         if name in cfg.get('writes', []):
             c['w'] = {'value': 1.0}
         return c
@@ -167,7 +174,7 @@ def run_config(cfg, strategy=None, want_choices=False):
             continue        # created by its pinata while the node scans for modules
         c = {'cls': make_class(name), 'description': name}
         for k, t in enumerate(cfg['att'].get(name, [])):
-            c[f'att{k}'] = t
+            c[attkey(name, k, t)] = t
         if name in cfg.get('writes', []):
             c['w'] = {'value': 1.0}
         if name not in cfg.get('exported', cfg['order']):
